@@ -28,10 +28,27 @@ type scItem struct {
 	Colon bool   `json:"colon"`
 	SelfW bool   `json:"selfw"`
 	InFn  bool   `json:"infn"`
+	Vis   []int  `json:"vis"`
+	VisPend []int `json:"vispend"`
+	Top   bool   `json:"top"`
+	InGF  bool   `json:"ingf"`
+	hasVis bool
 	// as-built alternatives attached by TLC (-1 = deviation does not apply): binding predicted for slot u / n / t
 	Alt  *scAlt `json:"alt"`
 	Altn *scAlt `json:"altn"`
 	Altt *scAlt `json:"altt"`
+}
+
+// UnmarshalJSON records whether TLC attached a vis set (closers appended at emission have none).
+func (it *scItem) UnmarshalJSON(b []byte) error {
+	type plain scItem
+	var p plain
+	if err := json.Unmarshal(b, &p); err != nil {
+		return err
+	}
+	*it = scItem(p)
+	it.hasVis = strings.Contains(string(b), `"vis"`)
+	return nil
 }
 
 type scAlt struct {
@@ -74,6 +91,7 @@ type scCase struct {
 	GDefs []scGDef  `json:"gdefs"`
 	Reads []int     `json:"reads"`
 	NDecl int       `json:"ndecl"`
+	VisEnd []int    `json:"visend"`
 	Extra json.RawMessage `json:"extra"`
 }
 
